@@ -21,7 +21,27 @@ pub fn id(args: &[&str]) -> String {
     )
 }
 
-/// IDPAIR <bundle> | <bundle> -> OK x<id1> x<id2> <T|F>
+/// The same bundle with its primary block built through PrimaryBlockBuilder (every field handed to its setter, in declaration order);
+/// None when the builder refuses (no destination).
+fn via_builder(b: &bp7::Bundle) -> Option<bp7::Bundle> {
+    let p = &b.primary;
+    let q = bp7::primary::PrimaryBlockBuilder::new()
+        .bundle_control_flags(p.bundle_control_flags)
+        .crc(p.crc.clone())
+        .destination(p.destination.clone())
+        .source(p.source.clone())
+        .report_to(p.report_to.clone())
+        .creation_timestamp(p.creation_timestamp.clone())
+        .lifetime(p.lifetime)
+        .fragmentation_offset(p.fragmentation_offset)
+        .total_data_length(p.total_data_length)
+        .build()
+        .ok()?;
+    Some(bp7::Bundle::new(q, b.canonicals.clone()))
+}
+
+/// IDPAIR <bundle> | <bundle> -> OK x<id1> x<id2> <T|F>   (ALTDIFF builder: the ID of a bundle depends on whether its primary block was
+/// made by setting the public fields or through PrimaryBlockBuilder with the same values)
 pub fn idpair(args: &[&str]) -> String {
     let mut t = Toks::new(args);
     let b1 = match parse_bundle(&mut t) {
@@ -39,6 +59,13 @@ pub fn idpair(args: &[&str]) -> String {
         return "BADCASE".into();
     }
     let (i1, i2) = (b1.id(), b2.id());
+    for (b, i) in [(&b1, &i1), (&b2, &i2)] {
+        if let Some(alt) = via_builder(b) {
+            if alt.id() != **i {
+                return "ALTDIFF builder".into();
+            }
+        }
+    }
     format!(
         "OK {} {} {}",
         show_bytes(i1.as_bytes()),
